@@ -47,6 +47,10 @@ class SQLRepo:
         sql_page = self._page_converter.from_entity(page)
         self._session.add(sql_page)
 
+    def get_page_names(self) -> list[str]:
+        """Returns the path (relative to the zettel dir) of every indexed page."""
+        return list(self._session.exec(select(sql.Page.path)).all())
+
     def remove_file_by_name(self, filename: str) -> Optional[Page]:
         """Remove a zorg file from the repo by path."""
         stmt = select(sql.Page).where(sql.Page.path == filename)
